@@ -283,8 +283,18 @@ fn run_c08o(line: &str) -> String {
         if tag != "c08o" || a.len() != 5 {
             return None;
         }
-        let (t_ms, p) = (a[0].as_u64()?, a[1].as_u64()?);
+        // T = `max` (`Duration::MAX`) / `maxsecs` (`Duration::from_secs(u64::MAX)`): "wait for as long as it takes" — the
+        // held requests are then answered P % of one second after the flush started, and nothing may stall
+        let huge = match a[0].as_atom() {
+            Some("max") => Some(Duration::MAX),
+            Some("maxsecs") => Some(Duration::from_secs(u64::MAX)),
+            _ => None,
+        };
+        let (t_ms, p) = (if huge.is_some() { 1000 } else { a[0].as_u64()? }, a[1].as_u64()?);
         if t_ms < 200 || t_ms > 5000 || p > 90 {
+            return None;
+        }
+        if huge.is_some() && a[2..].iter().any(|x| x.as_atom() == Some("stall")) {
             return None;
         }
         let mut kinds = Vec::new();
@@ -337,7 +347,7 @@ fn run_c08o(line: &str) -> String {
         }
         // let the stalled / acknowledged requests reach the collector too
         std::thread::sleep(Duration::from_millis(60));
-        let t = Duration::from_millis(t_ms);
+        let t = huge.unwrap_or(Duration::from_millis(t_ms));
         let release_after = Duration::from_millis(t_ms * p / 100);
         let flushed = std::thread::scope(|sc| {
             sc.spawn(|| {
@@ -345,9 +355,11 @@ fn run_c08o(line: &str) -> String {
                 c.release();
             });
             let t0 = std::time::Instant::now();
-            let f = otlp.blocking_flush(t);
+            let f = hcommon::catch(|| otlp.blocking_flush(t));
             (f, t0.elapsed())
         });
+        let panicked = flushed.0.is_none();
+        let flushed = (flushed.0.unwrap_or(false), flushed.1);
         // let everything finish: the stalled requests are cut off by a short request timeout
         c.release();
         emit_otlp::verif::set_request_timeout(Duration::from_millis(50));
@@ -358,8 +370,11 @@ fn run_c08o(line: &str) -> String {
         emit_otlp::verif::set_request_timeout(LONG);
         drop(otlp);
         let slack = std::cmp::max(t / 2, Duration::from_millis(400));
-        let over = flushed.1 > t + slack;
+        let over = flushed.1 > t.saturating_add(slack);
         let out = format!("flush={} over={}", flushed.0, over);
+        if panicked {
+            return Some("panic\tFAIL:c08-blocking_flush-panicked".into());
+        }
         Some(if over {
             format!("{}\tFAIL:blocking_flush({}ms)-returned-after-{}ms", out, t_ms, flushed.1.as_millis())
         } else {
@@ -372,6 +387,10 @@ fn run_c08o(line: &str) -> String {
 fn gen_c08o(rng: &mut Rng, tier: Tier, n: usize) -> Vec<String> {
     // the slow-but-successful first signal, an answered one, and a stalled last one: the budget case
     let mut out = vec!["(c08o 1000 80 hold ack stall)".to_string(), "(c08o 800 50 hold hold ack)".to_string()];
+    // "for as long as it takes"
+    out.push("(c08o max 30 hold ack absent)".to_string());
+    out.push("(c08o maxsecs 20 absent ack hold)".to_string());
+    out.push("(c08o max 0 absent absent absent)".to_string());
     let extra = if tier == Tier::Thorough { n.max(20) } else { n.min(3) };
     for _ in 0..extra {
         let k = |rng: &mut Rng| *rng.pick(&["absent", "ack", "ack", "hold", "hold", "stall"]);
